@@ -24,6 +24,12 @@ def check(ctx):
     nfa_rules.analyze(ctx, {"C01.g"})
     casts.analyze(ctx, {"C01.h"})
 
+    priority_rules(ctx)
+    rest(ctx)
+
+
+def priority_rules(ctx):
+    F = ctx.facts
     # ---- C01.c priority = first position in terminal_ids; terminal_ids in pattern order
     po = F.fn(r"CompiledDfa::priority_of$")
     ctx.analysed_fn(po)
@@ -78,6 +84,11 @@ def check(ctx):
     bad = [c for c in calls if re.search(r"Iterator>::(rev|skip|take|filter|step_by|skip_while|take_while)|sort|reverse|swap", c)]
     ctx.ob("C01.c", "patterns-compiled-in-given-order", not bad and any(re.search(r"add_pattern$", c) for c in calls), "reordering calls in try_from_patterns: %s" % [M.short_name(c) for c in bad], tp.loc())
 
+
+
+def rest(ctx):
+    F = ctx.facts
+    tp = F.fn(r"MultiPatternNfa::try_from_patterns$")
     # ---- C01.f add_patterns: token type = index
     ap = F.fn(r"ScannerBuilder::add_patterns$")
     ctx.analysed_fn(ap)
